@@ -21,17 +21,40 @@ RULE = ('sector/arc correspondence: Sector::points/contains, Arc::points (row bi
         'whole-degree pairs, 1e5 (quick) / 2e7 (thorough) random f32 (start, sweep) pairs, quick: every 256th f32 bit pattern in +-1440 deg (residue class rotating with VERIF_SEED, 9e6 angles per build), thorough: EVERY f32 bit pattern in +-1440 deg; measured worst eps is part of every result line (2.12 f32 / 9.85 fixed_point); the same on a second harness binary built with --features fixed_point (eps 10, plus a model correspondence batch with the normals of that build); |sweep| >= 360 deg -> EntirePlane and '
         'sector = circle, arc = ring; every sector/arc point within 1.5 px of the swept angle and every deeper circle point '
         'present, d up to 128.')
-PARTIAL = ['C18_sector_within_sweep / C18_sector_covers_sweep rest on the trig hypothesis (|normal - 1024*(rotated cos,sin)| <= eps), '
-           'which is validated by the p_trig_* suites through the hook, not proved']
-TRUSTED = ['Coq standard-library Reals axioms (ClassicalDedekindReals.sig_forall_dec, sig_not_dec, '
-           'FunctionalExtensionality.functional_extensionality_dep) in C18_sector_halfplane_* / within_sweep / covers_sweep',
+PARTIAL = [
+    'trig hypothesis: `trig_hypothesis ps start sweep eps` and `rays_proper ps` (coq/Proofs/Sectorangle.v; Coq sin/cos) are ASSUMED '
+    'of the external call PlaneSector::new and validated by trig_check (p_trig_*) through the hook, not proved; every angular '
+    'theorem (C18_sector_near_cone / covers_cone / within_sweep / covers_sweep, arc analogues) is conditional on it; the link '
+    '|sweep| >= 360 deg -> EntirePlane is its first clause (p_entire, p_trig_*), likewise Union iff |sweep| >= 180 deg',
+    'C18_sector_near_cone / covers_cone hold for eps <= 10 (covers both builds); the older line-distance forms '
+    'C18_sector_within_sweep / covers_sweep (eps <= 16) bound the distance to the two radial LINES only: below 180 deg that '
+    'alone would allow points up to 1.5/sin(sweep/2) px behind the apex, and from 180 deg on its premise skips centre-near '
+    'points - near_cone / covers_cone / C18_sector_union_exact close both gaps',
+    'outside the angular theorems: |sweep| in [179.999, 180.001) and [359.999, 360) deg (f32 comparison may pick either '
+    'operation: sweep_unambiguous), Intersection sectors with det(right,left) <= 0 = class K18_tiny_sweep_opposite_side '
+    '(|sweep| < 0.12 deg f32 / < 1.01 deg fixed_point: the recorded finding; and 179.88..180 resp. 178.99..180 deg where the '
+    'rounded normals may be exactly opposite), Union sectors within the same resolution of 180 / 360 deg unless both normals '
+    'coincide: there only p_sec_within (true distance to the nearer ray, f64, on the implementation) speaks',
+    'covers_cone asks that the closed 1.5-px disc around the point be strictly inside the sweep (off both radial lines); '
+    'the property text says "further than 1.5 px inside the sweep"',
+    'diameters <= 128 as in the property; angles: the hypothesis is validated for start in +-1080 deg and end angles in '
+    '+-1440 deg (every f32 in thorough, every 256th in quick), from_degrees only',
+]
+TRUSTED = ['Coq standard-library axioms: Reals (ClassicalDedekindReals.sig_forall_dec, sig_not_dec), Classical_Prop.classic (via sqrt/acos in the polar form of the sector), '
+           'FunctionalExtensionality.functional_extensionality_dep) in the C18_sector_* / C18_arc_* theorems over R',
            'external call, validated not proved: sin/cos of micromath (f32) or the I16F16 table behind PlaneSector::new; observed '
-           'through the add-only hook embedded_graphics::primitives::verif_hooks::plane_sector_parts',
+           'through the add-only hook embedded_graphics::primitives::verif_hooks::plane_sector_parts; trig_check '
+           '(harness/src/suites/c18_sector.rs) uses f64 sin/cos where the Coq definition uses the real functions',
            'bevel kind/normal of sector/styled.rs:63-88 are recomputed in harness/src/suites/c18_sector.rs through the public Angle API']
-ASSUMPTIONS = ['sector/arc bounding boxes within +-2^29 (rect_ok), where the unbounded model equals i32/u32 arithmetic']
+ASSUMPTIONS = ['sector/arc bounding boxes within +-2^29 (rect_ok), where the unbounded model equals i32/u32 arithmetic',
+               'contains() probes within 32767 doubled units of the centre per axis (probe_ok, Proofs/Sectormodel.v): the i32 '
+               '`length_squared` of the code wraps beyond (release: Sector (0,0) d=11 sweep 360 .contains((32773,5)) = true; with '
+               'overflow checks: panic) - C05_sector_far_probe_wraps is the machine-checked witness; diameters < 2^15']
 
 EPS_MILLI = 3000        # f32 / micromath build: measured 2.12
-EPS_MILLI_FP = 10000    # fixed_point build: whole-degree table lookup, 1024*sin(0.5 deg) = 8.94 + truncation; measured 9.80
+EPS_MILLI_FP = 10000    # fixed_point build: whole-degree table lookup, 1024*sin(0.5 deg) = 8.94 + truncation; measured 9.85.
+                        # 10 is the eps at which C18_sector_near_cone_fixed_point / covers_cone_fixed_point are instantiated
+                        # (their proof needs eps <= 10; the line-distance theorems allow 16): the test is exactly the theorem's hypothesis
 
 
 def D(k):
